@@ -4182,7 +4182,7 @@ impl BytecodeVM {
                             "Class extends value is not a constructor or null",
                         ));
                     };
-                    if !super_ctor.borrow().is_callable() {
+                    if !super_ctor.borrow().is_callable() || Self::is_not_a_constructor(super_ctor) {
                         return Err(JsError::type_error(
                             "Class extends value is not a constructor or null",
                         ));
